@@ -94,8 +94,43 @@ std::vector<int> callable(GenCtx &c) {
   return r;
 }
 
+// MF_ARITH: sum := un ('+' un)* ; un := '@' un | prod ; prod := atom ('*' atom)* - printed without parentheses; the macro
+// priorities (* 20, @ 15, + 10) rebuild exactly this tree.  An INT may not directly follow "ID +": the built-in x + c sugar
+// (priority 1000000) would grab that pair first.
+Val gen_atom(GenCtx &c, bool int_allowed) {
+  Val v;
+  if (int_allowed && c.rng.chance(3, 10)) { v.k = Val::CONST; v.c = c.rng.range(0, 3); }
+  else { v.k = Val::VAR; v.var = pick_var(c); }
+  return v;
+}
+bool ends_in_id(const Val &v) {
+  if (v.k == Val::VAR) return true;
+  if (v.k == Val::CONST) return false;
+  return ends_in_id(v.args.back());
+}
+Val gen_prod(GenCtx &c, bool first_int_allowed) {
+  Val l = gen_atom(c, first_int_allowed);
+  int n = c.rng.chance(2, 5) ? (c.rng.chance(1, 4) ? 2 : 1) : 0;
+  for (int i = 0; i < n; i++) { Val m; m.k = Val::BMUL; m.args.push_back(l); m.args.push_back(gen_atom(c, true)); l = m; }
+  return l;
+}
+// first_int_allowed == false: the previous operand ends in an identifier and a '+' follows it, so this operand must start with
+// an identifier: neither a literal nor '@' (whose expansion starts with the literal 2) may come next
+Val gen_un(GenCtx &c, bool first_int_allowed, int depth) {
+  if (first_int_allowed && depth < 2 && c.rng.chance(1, 4)) { Val d; d.k = Val::DBL; d.args.push_back(gen_un(c, true, depth + 1)); return d; }
+  return gen_prod(c, first_int_allowed);
+}
+Val gen_expr(GenCtx &c) {
+  Val l = gen_un(c, true, 0);
+  int n = (int)c.rng.range(0, 2);
+  if (n == 0 && l.k != Val::BMUL && l.k != Val::DBL) n = 1;
+  for (int i = 0; i < n; i++) { Val a; a.k = Val::BADD; a.args.push_back(l); a.args.push_back(gen_un(c, !ends_in_id(l), 0)); l = a; }
+  return l;
+}
+
 Val gen_val(GenCtx &c, int depth) {
   Val v;
+  if ((c.gp.macros & MF_ARITH) && depth == 0 && !c.in_slot && c.routine != 0 && c.routine != 1 && c.rng.chance(1, 4)) return gen_expr(c);
   int w = (int)c.rng.below(100);
   auto cs = callable(c);
   int call_w = cs.empty() ? 0 : (c.gp.call_heavy ? 45 : 22);
@@ -168,6 +203,7 @@ Stmt gen_stmt(GenCtx &c, int depth) {
     s.k = Stmt::SWAP; s.var = pick_var(c); s.var2 = pick_var(c);
     return s;
   }
+  if ((gp.macros & MF_TWICE) && w < 48 && w >= 45) { s.k = Stmt::TWICE; s.var = pick_var(c); s.c = c.rng.range(1, 3); return s; }
   if ((gp.macros & MF_ITE) && can_nest && w < 52) {
     s.k = Stmt::ITE;
     bool save = c.in_ite; c.in_ite = true; c.in_slot++;
@@ -314,15 +350,25 @@ Ast generate_ast(Rng &rng, const GenParams &gp) {
   Ast a;
   a.macros = gp.macros;
   GenCtx c{rng, gp, a};
-  int ndefs = (int)rng.range(0, gp.max_defs);
+  if (gp.macros & MF_ARITH) {
+    auto asg = [](const std::string &v, Val val) { Stmt s; s.k = Stmt::ASSIGN; s.var = v; s.val = val; return s; };
+    Routine add; add.name = "add"; add.params = {"a", "b"}; add.has_out = true; add.out = "a";
+    { Stmt l; l.k = Stmt::LOOP; l.var = "b"; Val inc; inc.k = Val::ADD; inc.var = "a"; inc.c = 1; l.body.push_back(asg("a", inc)); add.body.push_back(l); }
+    Routine mul; mul.name = "mul"; mul.params = {"a", "b"};
+    { Stmt l; l.k = Stmt::LOOP; l.var = "b"; Val call; call.k = Val::CALL; call.callee = "add"; Val x; x.k = Val::VAR; x.var = "x0"; Val y; y.k = Val::VAR; y.var = "a"; call.args = {x, y}; l.body.push_back(asg("x0", call)); mul.body.push_back(l); }
+    a.defs.push_back(add); a.defs.push_back(mul);
+  }
+  const int arith_defs = (int)a.defs.size();
+  int ndefs = arith_defs + (int)rng.range(0, gp.max_defs);
   if (gp.call_heavy && ndefs == 0) ndefs = 1;
-  for (int i = 0; i < ndefs; i++) {
+  for (int i = arith_defs; i < ndefs; i++) {
     Routine r;
     // name: mostly fresh, sometimes a redefinition of an earlier name
-    if (i > 0 && rng.chance(1, 8)) r.name = a.defs[rng.below(a.defs.size())].name;
+    if (i > arith_defs && rng.chance(1, 8)) r.name = a.defs[arith_defs + rng.below(a.defs.size() - arith_defs)].name;
     else {
       for (int tries = 0; tries < 20; tries++) {
         r.name = FN_POOL[rng.below(7)];
+        if (arith_defs && (r.name == "add" || r.name == "mul")) r.name = r.name + "x";
         bool clash = false;
         for (auto &d : a.defs) if (d.name == r.name) clash = true;
         if (!clash) break;
@@ -355,8 +401,8 @@ Ast generate_ast(Rng &rng, const GenParams &gp) {
     a.defs.back().body = gen_routine_body(c, 4);
   }
   // shared-file duplicate: repeat one definition verbatim later on (printed as the same file included twice)
-  if (!a.defs.empty() && rng.chance(1, 10)) {
-    size_t i = rng.below(a.defs.size());
+  if ((int)a.defs.size() > arith_defs && rng.chance(1, 10)) {
+    size_t i = arith_defs + rng.below(a.defs.size() - arith_defs);
     // only safe when the body calls nothing that could resolve differently the second time: keep it simple,
     // resolution is by "latest complete definition", which the reference implements as well
     a.defs[i].share = 1;
@@ -426,6 +472,9 @@ struct Printer {
       case Val::CONST: tok(std::to_string(v.c), 1); break;
       case Val::ADD: tok(v.var, 2); tok("+"); tok(std::to_string(v.c), 1); break;
       case Val::SUB: tok(v.var, 2); tok("-"); tok(std::to_string(v.c), 1); break;
+      case Val::BADD: val(v.args[0]); tok("+"); val(v.args[1]); break;
+      case Val::BMUL: val(v.args[0]); tok("*"); val(v.args[1]); break;
+      case Val::DBL: tok("@"); val(v.args[0]); break;
       case Val::CALL:
         if (v.sugar == 1 && !v.args.empty()) {
           tok(v.callee, 2); tok("(");
@@ -468,6 +517,7 @@ struct Printer {
       case Stmt::STOP: K("STOP"); break;
       case Stmt::NOP: tok("NOP", 2); break;
       case Stmt::SWAP: tok("SWAP", 2); tok(s.var, 2); tok(s.var2, 2); break;
+      case Stmt::TWICE: tok("TWICE", 2); tok(s.var, 2); tok(std::to_string(s.c), 1); break;
       case Stmt::ITE:
         K("IF"); val(s.val); K("THEN"); nl();
         block(s.body);
@@ -488,6 +538,18 @@ struct Printer {
     if (m & MF_SWAP) {
       nl(); K("DEFINE"); tok("SWAP", 2); tok("<ID>"); tok("<ID>"); K("AS");
       tok("#0"); tok(":="); tok("$0"); tok(";"); tok("$0"); tok(":="); tok("$1"); tok(";"); tok("$1"); tok(":="); tok("#0");
+      K("ENDDEFINE");
+    }
+    if (m & MF_ARITH) {
+      nl(); K("DEFINE"); K("PRIORITY"); tok("10", 1); tok("<V>"); tok("+"); tok("<V>"); K("AS"); K("RUN"); tok("add", 2); K("WITH"); tok("$0"); tok(","); tok("$1"); K("END"); K("ENDDEFINE");
+      nl(); K("DEFINE"); K("PRIORITY"); tok("20", 1); tok("<V>"); tok("*"); tok("<V>"); K("AS"); K("RUN"); tok("mul", 2); K("WITH"); tok("$0"); tok(","); tok("$1"); K("END"); K("ENDDEFINE");
+      nl(); K("DEFINE"); K("PRIORITY"); tok("15", 1); tok("@"); tok("<V>"); K("AS"); tok("2", 1); tok("*"); tok("$0"); K("ENDDEFINE");
+    }
+    if (m & MF_TWICE) {
+      nl(); K("DEFINE"); tok("TWICE", 2); tok("<ID>"); tok("<INT>"); K("AS");
+      tok("#0"); tok(":="); tok("$1"); tok(";"); nl();
+      K("LOOP"); tok("#0"); K("DO"); tok("$0"); tok(":="); tok("$0"); tok("+"); tok("1", 1); K("END"); tok(";"); nl();
+      K("LOOP"); tok("#0"); K("DO"); K("LOOP"); tok("#0"); K("DO"); tok("$0"); tok(":="); tok("$0"); tok("+"); tok("1", 1); K("END"); K("END");
       K("ENDDEFINE");
     }
     if (m & MF_NONLR) { nl(); K("DEFINE"); tok("tail", 2); tok("<ID>"); tok("<P>"); K("AS"); tok("$1"); K("ENDDEFINE"); }
@@ -705,6 +767,11 @@ static Json val_to_json(const Val &v) {
     case Val::CONST: j.push("c").push(v.c); break;
     case Val::ADD: j.push("+").push(v.var).push(v.c); break;
     case Val::SUB: j.push("-").push(v.var).push(v.c); break;
+    case Val::BADD: case Val::BMUL: case Val::DBL: {
+      j.push(v.k == Val::BADD ? "b+" : v.k == Val::BMUL ? "b*" : "@");
+      for (auto &x : v.args) j.push(val_to_json(x));
+      break;
+    }
     case Val::CALL: {
       j.push("call").push(v.callee).push(v.sugar);
       Json a = Json::arr();
@@ -722,10 +789,11 @@ static Val val_from_json(const Json &j) {
   else if (k == "c") { v.k = Val::CONST; v.c = j.a.at(1).n; }
   else if (k == "+") { v.k = Val::ADD; v.var = j.a.at(1).s; v.c = j.a.at(2).n; }
   else if (k == "-") { v.k = Val::SUB; v.var = j.a.at(1).s; v.c = j.a.at(2).n; }
+  else if (k == "b+" || k == "b*" || k == "@") { v.k = k == "b+" ? Val::BADD : k == "b*" ? Val::BMUL : Val::DBL; for (size_t i = 1; i < j.a.size(); i++) v.args.push_back(val_from_json(j.a[i])); }
   else { v.k = Val::CALL; v.callee = j.a.at(1).s; v.sugar = (int)j.a.at(2).n; for (auto &x : j.a.at(3).a) v.args.push_back(val_from_json(x)); }
   return v;
 }
-static const char *SK[] = {"assign", "loop", "while", "goto", "if", "stop", "nop", "swap", "ite"};
+static const char *SK[] = {"assign", "loop", "while", "goto", "if", "stop", "nop", "swap", "ite", "twice"};
 static Json block_to_json(const std::vector<Stmt> &b);
 static Json stmt_to_json(const Stmt &s) {
   Json j = Json::obj();
@@ -734,7 +802,7 @@ static Json stmt_to_json(const Stmt &s) {
   if (!s.var.empty()) j.set("var", s.var);
   if (!s.var2.empty()) j.set("var2", s.var2);
   if (s.k == Stmt::ASSIGN || s.k == Stmt::ITE) j.set("val", val_to_json(s.val));
-  if (s.k == Stmt::IF) j.set("c", s.c);
+  if (s.k == Stmt::IF || s.k == Stmt::TWICE) j.set("c", s.c);
   if (!s.target.empty()) j.set("to", s.target);
   if (!s.body.empty()) j.set("body", block_to_json(s.body));
   if (!s.body2.empty()) j.set("else", block_to_json(s.body2));
@@ -745,7 +813,7 @@ static std::vector<Stmt> block_from_json(const Json &j);
 static Stmt stmt_from_json(const Json &j) {
   Stmt s;
   std::string k = j.str("k");
-  for (int i = 0; i < 9; i++) if (k == SK[i]) s.k = (Stmt::K)i;
+  for (int i = 0; i < 10; i++) if (k == SK[i]) s.k = (Stmt::K)i;
   if (auto l = j.find("l")) for (auto &x : l->a) s.labels.push_back(x.s);
   s.var = j.str("var"); s.var2 = j.str("var2");
   if (auto v = j.find("val")) s.val = val_from_json(*v);
@@ -877,7 +945,7 @@ std::vector<Ast> ast_reductions(const Ast &a0) {
   }
   for (auto &r : a.defs) if (r.share) { int k = r.share; r.share = 0; emit(); r.share = k; }
   if (a.macros) {
-    for (unsigned bit = 1; bit <= 16; bit <<= 1) if (a.macros & bit) { a.macros &= ~bit; emit(); a.macros |= bit; }
+    for (unsigned bit = 1; bit <= 64; bit <<= 1) if (a.macros & bit) { a.macros &= ~bit; emit(); a.macros |= bit; }
   }
   block_reductions(a.main, emit);
   for (auto &r : a.defs) {
